@@ -333,7 +333,9 @@ func (priv *PrivateKey) inverseOfPrivateKeyPlus1(c *sm2Curve) (*bigmod.Nat, erro
 			}
 		}
 	})
-	if err != nil {
+	// The cache stays empty when the first call rejected the key: report the
+	// error again instead of handing out a nil inverse.
+	if err != nil || priv.inverseOfKeyPlus1 == nil {
 		return nil, errInvalidPrivateKey
 	}
 	return priv.inverseOfKeyPlus1, nil
